@@ -14,8 +14,8 @@ PROP = 'C07'
 LEVEL = 'proof'
 PROPS_MODULES = ['RTV.Props.C07']
 GEN = ['chartables', 'dtmaps']
-REQUIRED_THEOREMS = ['clock24', 'clock24_partial', 'clock24_hour0_unresolved', 'clock12', 'clock12_partial',
-                     'ambiguous_two_readings', 'date_at_time', 'date_at_time_ambiguous', 'toPm_twelve_apart',
+REQUIRED_THEOREMS = ['clock24', 'clock24_partial', 'clock24_hour0_unresolved', 'clock24_hour0_repaired', 'clock12', 'clock12_partial',
+                     'ambiguous_two_readings', 'date_at_time', 'date_at_time_unambiguous', 'date_at_time_ambiguous', 'toPm_twelve_apart',
                      'short_time_shape']
 RULE = ('unit: DateTimeFormatUtil over full ranges (luis_time/short_time 24x60x{none,0..59}, luis_date, format_*, '
         'to_pm, all_str_to_pm); match_to_time on every match of AtRegex/TimeRegex1..11/ConnectNumRegex over generated '
